@@ -1743,7 +1743,7 @@ func (c *dedicatedClusterClient) Close() {
 		p.close <- ErrClosing
 		close(p.close)
 	}
-	if c.wire != nil {
+	if c.wire != nil && !c.mark { // once released, the wire may already serve another caller
 		c.wire.Close()
 	}
 	c.mu.Unlock()
